@@ -74,7 +74,7 @@ package bufcas
 //@   ensures err == nil ==> path != "" && validRel(path) && Normalize(path) == path && digest != nil
 //@   ensures path != "" && validRel(path) && Normalize(path) == path && digest != nil ==> err == nil
 // every accepted path must fit on one manifest line (the canonical text is line-oriented)
-//@   ensures single-line: err == nil ==> !contains(path, "\n")
+//@   ensures single-line {C08}: err == nil ==> !contains(path, "\n")
 //
 //@ func newFileNode(path, digest) (r)
 //@   property C08
